@@ -78,6 +78,19 @@ def fam_orderonly():
     return Family("orderonly", v, ["s1", "s2", "s3"], ["g", "o1", "o2"], ["", "o1"], quick=True)
 
 
+def fam_oodep():
+    # a command with an order-only input AND a dependency file that names something else: the order-only input
+    # (a generated file or a source) must not trigger it although such a command can never take the "update if newer" shortcut
+    b = M("base", [E("G", ["g"], ["s2"]),
+                   E("C1", ["o1"], ["s1"], oo=["g"], extras=["s3"], deps="gcc"),
+                   E("C2", ["o2"], ["o1"])], default=["o2"])
+    v = [b,
+         retag(b, "tag-G", "G"),
+         change(b, "plain-depfile", "C1", "deps-gcc-becomes-depfile", deps="depfile"),
+         change(b, "oo-src", "C1", "add-order-only", oo=["g", "s2"])]
+    return Family("oodep", v, ["s1", "s2", "s3"], ["g", "o1"], ["", "o1"], quick=True)
+
+
 def fam_depfile():
     b = M("base", [E("C1", ["o1"], ["s1"], extras=["s2"], deps="gcc"), E("C2", ["o2"], ["o1"])], default=["o2"])
     v = [b,
@@ -289,7 +302,7 @@ def fam_twotargets():
 
 
 def all_families():
-    return [fam_chain(), fam_implicit(), fam_newimp(), fam_orderonly(), fam_depfile(), fam_multi(), fam_phony(), fam_alias(),
+    return [fam_chain(), fam_implicit(), fam_newimp(), fam_orderonly(), fam_oodep(), fam_depfile(), fam_multi(), fam_phony(), fam_alias(),
             fam_restat(), fam_generator(), fam_pool(), fam_diamond(), fam_roots(), fam_genheader(), fam_depmulti(),
             fam_impprod(), fam_oochain(), fam_restatchain(), fam_fanin(), fam_selfgen(), fam_mixed(), fam_phonychain(),
             fam_twotargets()]
